@@ -310,3 +310,53 @@ def _tostring_unit():
 register(Unit('junctors.Relations.tostring', 'concepts/junctors.py', 'Relations.tostring', _tostring_unit(),
               assumptions=['builtin max raises ValueError on an empty iterable unless default= is given; %-formatting and join are total on these operands'],
               linkage=[('concepts.junctors.Relations.tostring', None)]))
+
+
+def _ctx_relations_unit():
+    """Context.relations(include_unary): a NEW Relations object built by this call from (self.properties, the property columns
+    self._extents.bools(), include_unary); nothing is stored on the context (a cached, shared list would leak edits between calls)."""
+    def make():
+        def harness(path):
+            made, bools_calls = [], []
+            props = ObjV('Arg', {}, name='self.properties')
+            ext = ObjV('Vectors', {}, name='self._extents')
+
+            def bools(p, args, kw):
+                r = ObjV('Rows', {}, name='self._extents.bools()')
+                bools_calls.append(r)
+                return r
+            ext.fields['bools'] = FuncV('Vectors.bools', bools)
+            this = ObjV('Context', {'properties': props, '_extents': ext}, name='self')
+            keys0 = set(this.fields)
+
+            def relations_cls(p, args, kw):
+                r = ObjV('Relations', {}, name='Relations(...)')
+                r.made_with = (list(args), dict(kw))
+                made.append(r)
+                return r
+            junctors = ObjV('module', {'Relations': FuncV('junctors.Relations', relations_cls)}, name='junctors')
+            flag = BoolV(path.fresh_bool('include_unary'))
+
+            def finish(path, env_, outcome):
+                if outcome[0] != 'return':
+                    path.oblige('post/no-exception', 'post', BoolVal(False))
+                    return
+                r = outcome[1]
+                ok = len(made) == 1 and r is made[0]
+                path.oblige('fresh/a-Relations-object-built-by-this-call', 'fresh', BoolVal(ok))
+                if ok:
+                    a, k = r.made_with
+                    allargs = a + [k[n] for n in ('include_unary',) if n in k]
+                    path.oblige('post/built-from-properties-columns-and-flag', 'post',
+                                BoolVal(len(allargs) == 3 and allargs[0] is props and len(bools_calls) == 1 and allargs[1] is bools_calls[0]
+                                        and allargs[2] is flag))
+                path.oblige('frame/nothing-stored-on-the-context', 'frame', BoolVal(set(this.fields) == keys0))
+            return {'self': this, 'include_unary': flag}, {'globals': dict(lib.builtins(), junctors=junctors)}, finish
+        return bits.axioms(), harness
+    return make
+
+
+register(Unit('contexts.relations', 'concepts/contexts.py', 'Context.relations', _ctx_relations_unit(),
+              assumptions=['self._extents.bools(): the property columns as boolean tuples (bitsets contract)',
+                           'contract of Relations.__init__ (unit junctors.Relations.__init__)'],
+              linkage=[('type(ctx).relations', None)]))
